@@ -152,8 +152,10 @@ CHECKS = {
               "tiers, cleaned match, default; all missing fields reported together) — induction over histories with a cache invariant; "
               "os.environ only changes by the user's own edits; dotenv over secrets over process environment, later file wins; "
               "priority table regenerated from source; witnesses of the two repaired defects and of the recorded one under quirk flags; "
-              "model tied to the code state-by-state over exhaustive short and random long histories in forked children. Value "
-              "conversion is not modelled here (C04)"),
+              "model tied to the code state-by-state over exhaustive short and random long histories in forked children, incl. histories "
+              "over the file system (dotenv files / secrets dirs absent at first, appearing, rewritten, removed; relative names found "
+              "in or above the working directory; str / Path spellings; classes defined mid-history) judged on what is on disk at "
+              "that moment. Value conversion is not modelled here (C04)"),
         technique='Lean 4 proof over a hand state machine + history correspondence + quirk probes', ref='4 C18'),
     'C17': dict(
         text=("Lean theorems over a model of both pattern engines (default: generated pattern_to_dt incl. the '-'/'+' time variant; v1: "
